@@ -3,6 +3,8 @@
 
 mod common;
 mod queue;
+mod rp;
+mod ca;
 
 use std::path::PathBuf;
 
@@ -30,6 +32,12 @@ fn main() {
         }
         "run-queue" => {
             queue::run(
+                &behaviours.unwrap(), &out.unwrap(), &workdir.unwrap(),
+                flag(&args, "--memory"),
+            );
+        }
+        "run-ca" => {
+            ca::run(
                 &behaviours.unwrap(), &out.unwrap(), &workdir.unwrap(),
                 flag(&args, "--memory"),
             );
